@@ -255,7 +255,9 @@ Definition t_at_parent (p : list name) (g : name -> node -> node * out) (t : nod
 
 Definition t_step (t : node) (o : op) : node * out :=
   match o with
-  | OMkdir p parents _ => t_mkdir p parents t
+  | OMkdir p parents f =>
+      let (t1, x) := t_mkdir p parents t in
+      if f && is_ok x then (fst (tnav p tg_getnode t1), x) else (t1, x)
   | OCreate p => t_at_parent p (fun k => tg_addchild k newfile) t
   | OWrite p data _ => tnav p (tg_fmod (fun _ m t => (data, m, bump t))) t
   | OTrunc p n _ => tnav p (tg_fmod (fun d m t => (resize n d, m, bump t))) t
@@ -578,11 +580,23 @@ Definition flags_name : flags := {| f_mv_name := true; f_mv_self := false |}.
 Definition flags_self : flags := {| f_mv_name := false; f_mv_self := true |}.
 Definition flags_both : flags := {| f_mv_name := true; f_mv_self := true |}.
 
+(** "failed operations leave the tree unchanged", evaluated along the specification run of
+    the case (proved for all histories in P_C19 except for the late failure points of Mv,
+    which this evaluates on every case) *)
+Fixpoint t_failed_unchanged (t : node) (ops : list op) : bool :=
+  match ops with
+  | [] => true
+  | o :: r =>
+      let (t', x) := t_step t o in
+      (is_ok x || node_match (canon t') (canon t)) && t_failed_unchanged t' r
+  end.
+
 Definition check_case (c : case) : verdict :=
   match c with
   | Case ops outs =>
       let spec := snd (t_run newdir ops) in
       let impl_is fl := list_eqb out_match (snd (m_run fl (load newdir) ops)) outs in
+      if negb (t_failed_unchanged newdir ops) then VSpecFail else
       if list_eqb out_match spec outs
       then (if impl_is flags_off then VOk else VModelMismatch)
       else if negb (list_eqb out_match (snd (m_run flags_off (load newdir) ops)) spec) then VSpecFail
